@@ -655,6 +655,31 @@ pub fn generate_c07(tier: &str, rng: &mut Rng) -> Vec<String> {
             }
             v.push(format!("checkh {} {} {} {} {} -", sc.tag, hex(&sc.stored), cf(&more), hex(&sc.prog), hex(&sc.ixdata)));
         }
+        if rng.chance(1, 6) {
+            // a config that refers to an account (the owning program of an external PDA, the account of a key or data seed, the
+            // account a key is read from) at an index the provided list does NOT have is unresolvable: validation must reject
+            // whatever stands at the trailing position — in particular the address a resolver would get by quietly falling back
+            // (the same seeds under the executing program, the key of account 0, …)
+            let k0 = rng.below(4) as usize;
+            let initial: Vec<(Pubkey, bool, bool, Vec<u8>)> = (0..k0).map(|i| (Pubkey::new_from_array(sc.world.keys[i]), false, rng.chance(1, 2), sc.datas[i].clone())).collect();
+            let nlit = rng.below(6) as usize; let lit = rng.bytes(nlit);
+            let missing = (k0 + 1 + rng.below(3) as usize) as u8;   // beyond the initial accounts and the one trailing account
+            let prog = Pubkey::new_from_array(sc.prog);
+            let seeds_cfg = Seed::pack_into_address_config(&[Seed::Literal { bytes: lit.clone() }]).unwrap();
+            let fallback = Pubkey::find_program_address(&[&lit[..]], &prog).0;
+            let variants: Vec<(Vec<u8>, Pubkey)> = vec![
+                (cfg_bytes(128 + missing, &seeds_cfg, 0, 1), fallback),
+                (cfg_bytes(1, &Seed::pack_into_address_config(&[Seed::Literal { bytes: lit.clone() }, Seed::AccountKey { index: missing }]).unwrap(), 0, 0), fallback),
+                (cfg_bytes(2, &PubkeyData::pack_into_address_config(&PubkeyData::AccountData { account_index: missing, data_index: 0 }).unwrap(), 0, 0), initial.first().map_or(fallback, |a| a.0)),
+            ];
+            for (cfg, key) in variants {
+                let stored = stored_for(sc.tag, &[cfg], 0);
+                let mut m = initial.clone(); m.push((key, false, true, vec![7u8; 40]));
+                v.push(format!("check {} {} {} {} {}", sc.tag, hex(&stored), hex(&sc.prog), hex(&sc.ixdata), fmt(&m)));
+                let mut m2 = initial.clone(); m2.push((key, false, false, vec![7u8; 40]));
+                v.push(format!("check {} {} {} {} {}", sc.tag, hex(&stored), hex(&sc.prog), hex(&sc.ixdata), fmt(&m2)));
+            }
+        }
         if rng.chance(1, 10) {
             // malformed stored bytes
             let bad = match rng.below(3) { 0 => vec![1u8, 2, 3], 1 => { let mut s2 = sc.stored.clone(); let l = s2.len(); s2.truncate(rng.below(l as u64 + 1) as usize); s2 }, _ => rng.bytes(40) };
